@@ -304,16 +304,28 @@ void run_pfx(const J &plan, RunCtx &ctx)
 	R.cb_enabled = plan.geti("callbacks", 1) != 0;
 	pfx_table_init(&R.tbl, R.cb_enabled ? pfx_cb : NULL);
 	uint64_t fail_at = (uint64_t)plan.geti("alloc_fail_at", 0);
-	if (fail_at)
+	if (fail_at) {
 		simalloc_fail_at(fail_at);
+		ctx.prop_override = "C18";
+	}
 	const J &ops = plan["ops"];
 	unsigned qevery = (unsigned)plan.geti("query_every", 1);
 	unsigned qn = (unsigned)plan.geti("query_budget", 120);
+	J per_op = J::arr();
 	for (size_t i = 0; i < ops.size(); i++) {
+		uint64_t c0 = simalloc_calls();
+		if (ops[i].gets("op") == "failnext") { // fault attached to the following op: its k-th allocation fails
+			simalloc_fail_at(simalloc_calls() + (uint64_t)ops[i].geti("k", 1));
+			ctx.prop_override = "C18";
+			per_op.push(0);
+			continue;
+		}
 		apply_op(R, ops[i], i);
 		if (qevery && (i % qevery) == qevery - 1)
 			query_batch(R, i, qn);
+		per_op.push((long long)(simalloc_calls() - c0));
 	}
+	ctx.extra["alloc_per_op"] = per_op;
 	simalloc_fail_off();
 	ctx.counters["alloc_calls"] = simalloc_calls();
 	ctx.counters["alloc_failures"] = simalloc_failures();
